@@ -233,13 +233,21 @@ def segmentLoop (bitLength : List Nat) : (fuel : Nat) → Buffer → Array Segme
 /-- how many syndromes the decoder asks for: the block's parity length -/
 def RS_SYNDROMES (parity : Nat) : Int := parity
 
+/-- whether the decoder unmasks a private copy (repaired source) or the caller's pixels (pinned source) -/
+def DECODE_CLONES : Bool := false
+
+/-- Go: `image.Rectangle.Eq` on (w, h) rectangles at the origin -/
+def sameBounds (a b : Image) : Bool := a.rectEq b
+
 /-- Go: `DecodeBitmap`; also returns the caller's bitmap as it is after the call -/
-def decodeBitmapFull (img : Image) : Out (QRCode × Image) := do
+def decodeBitmapFull (img0 : Image) : Out (QRCode × Image) := do
+  let img : Image := { img0 with minX := 0, minY := 0, maxX := img0.dx, maxY := img0.dy }
   let w := img.dx - 1
   let h := img.dy - 1
   let (version, level) ← decodeFormat img
   let usedO ← imgAt usedList version
   let used ← deref usedO
+  if !sameBounds img used then Out.err (α := Unit) "rmqr: image size does not match version"
   let binimg ← Image.mask img used precomputedMask
   let buf ← readLoop used binimg h ((w + 3) * (h + 3)).toNat { x := w - 1, y := h - 5, dy := -1 } {}
   let cap ← capAt Gen.RMQR.capacityTable version level
@@ -252,7 +260,7 @@ def decodeBitmapFull (img : Image) : Out (QRCode × Image) := do
   if result.size < cap.data then Out.panic (α := Unit) "slice bounds out of range"
   let stream : Buffer := { buf := result.extract 0 cap.data }
   let segments ← segmentLoop cap.bitLength (cap.data * 8 + 8) stream #[]
-  pure ({ version, level, mask := 0, segments }, binimg)
+  pure ({ version, level, mask := 0, segments }, if DECODE_CLONES then img0 else { img0 with pix := binimg.pix })
 
 def decodeBitmap (img : Image) : Out QRCode := do
   let (q, _) ← decodeBitmapFull img
